@@ -239,7 +239,7 @@ RightOpen(t) ==
       [] t[1] = "not" -> RightOpen(t[2])
       [] OTHER -> FALSE
 
-RECURSIVE Print(_, _), PrintItems(_, _)
+RECURSIVE Unparse(_, _), PrintItems(_, _)
 \* loose = TRUE : parentheses only where the grammar needs them
 \* loose = FALSE: every composite operand is parenthesised
 Paren(ts) == << <<"(">> >> \o ts \o << <<")">> >>
@@ -247,11 +247,11 @@ Atomic(t) == t[1] \in {"true", "false", "var", "ref", "cc", "cv"}
 
 PrintItems(fs, loose) ==
     IF fs = <<>> THEN <<>>
-    ELSE IF Len(fs) = 1 THEN Print(fs[1], loose)
-    ELSE Print(fs[1], loose) \o << <<",">> >> \o PrintItems(Tail(fs), loose)
+    ELSE IF Len(fs) = 1 THEN Unparse(fs[1], loose)
+    ELSE Unparse(fs[1], loose) \o << <<",">> >> \o PrintItems(Tail(fs), loose)
 
-Print(t, loose) ==
-    LET Child(c, needs) == IF (loose /\ ~needs) \/ (~loose /\ Atomic(c)) THEN Print(c, loose) ELSE Paren(Print(c, loose))
+Unparse(t, loose) ==
+    LET Child(c, needs) == IF (loose /\ ~needs) \/ (~loose /\ Atomic(c)) THEN Unparse(c, loose) ELSE Paren(Unparse(c, loose))
     IN
     CASE t[1] = "true"  -> << <<"true">> >>
       [] t[1] = "false" -> << <<"false">> >>
@@ -267,5 +267,5 @@ Print(t, loose) ==
       [] t[1] = "cv"    -> << <<"[">> >> \o PrintItems(t[3], loose) \o << <<"]">>, TokOfCmp(t[2]), <<"[">> >>
                               \o PrintItems(t[4], loose) \o << <<"]">> >>
 
-Sentence(t, loose) == Print(t, loose) \o << <<"eof">> >>
+Sentence(t, loose) == Unparse(t, loose) \o << <<"eof">> >>
 =============================================================================
